@@ -2,3 +2,4 @@ import Driver.Proto
 import Driver.Rules
 import Driver.Exhaust
 import Driver.Compose
+import Driver.Stats
